@@ -1334,7 +1334,11 @@ def rule_T6b(ctx, rule: str = "T6") -> None:
                            and not (isinstance(a.value, ast.Call) and isinstance(a.value.func, ast.Attribute) and a.value.func.attr == "get")]
                 else:
                     src = [val]
-                key_deps = {ast.unparse(x) for x in ast.walk(key) if isinstance(x, (ast.Name, ast.Attribute))}
+                key_exprs = [key]
+                if isinstance(key, ast.Name):
+                    # the key was put together in a local first: what it was assigned
+                    key_exprs += [a.value for a in ast.walk(fn) if isinstance(a, ast.Assign) and any(isinstance(t, ast.Name) and t.id == key.id for t in a.targets)]
+                key_deps = {ast.unparse(x) for k_ in key_exprs for x in ast.walk(k_) if isinstance(x, (ast.Name, ast.Attribute))}
                 val_deps = set()
                 for v in src:
                     for x in ast.walk(v):
